@@ -29,6 +29,9 @@ def run(ctx):
     ctx.prove('props/C07.v')
     L.lockstep(ctx, [L.mon_c07])
     L.nested_sweep(ctx, ('drops', 'outcome', 'panic'))
+    if ctx.tier == 'thorough':
+        ctx.harness(['p_nested2'])
+        L.nested2_sweep(ctx, ('drops', 'outcome', 'panic'))
     L.histories(ctx, 500 if ctx.tier == 'quick' else 5000)
     # model-side search: the only way to exhibit a weak-memory failure (runs always; finds nothing while the theorems hold)
     L.ra_search(ctx, 3000 if ctx.tier == 'quick' else 100000)
